@@ -723,9 +723,22 @@ def run_bounded(prop, tier, seed):
         return {}
     env = dict(os.environ)
     env["PYTHONPATH"] = f"{REPO}:{VERIF}"
+    started = time.time()
+    # on the unchanged tree the monitors take 10 s - 4 min (quick) / up to 40 min (thorough); a monitor that runs far beyond
+    # that on a changed tree is stopped, and the violations it has already written out (replay files of this run) are reported
+    limit = 720 if tier == "quick" else 3000
     try:
-        p = subprocess.run([NATIVE_PY, script, tier, str(seed)], capture_output=True, text=True, timeout=3000, env=env, cwd=VERIF)
+        p = subprocess.run([NATIVE_PY, script, tier, str(seed)], capture_output=True, text=True, timeout=limit, env=env, cwd=VERIF)
     except subprocess.TimeoutExpired:
+        found = []
+        rdir = os.path.join(VERIF, "replays", prop)
+        if os.path.isdir(rdir):
+            for f in sorted(os.listdir(rdir)):
+                fp = os.path.join(rdir, f)
+                if f.startswith("bounded_") and os.path.getmtime(fp) >= started - 1:
+                    found.append({"what": "written by the monitor before it was stopped", "replay": os.path.join("replays", prop, f)})
+        if found:
+            return {"failures": found, "parts": [], "evaluations": 0, "error_note": f"bounded monitor stopped after {limit} s; it had already written {len(found)} replay file(s)"}
         return {"error": "bounded part timed out"}
     if p.returncode != 0:
         return {"error": (p.stderr or p.stdout)[-2000:]}
